@@ -45,6 +45,9 @@ def naming_space(tier):
                 out.append(('wrap', p0, p1, p2, l, c0))
     for x, y, z in itertools.permutations(N, 3):
         out.append(('top', x, y, z))
+    # a block that uses, besides its own local wire <name>, a caller-owned wire of the same name that is not one of its ports
+    for l in N:
+        out.append(('alias', l))
     return out
 
 
@@ -61,6 +64,19 @@ def build_naming(g):
         py4hw.And2(W, 'g0', x, y, lw)
         py4hw.Reg(W, c0, lw, z)
         return hw, ['w_x', 'w_y']
+    if g[0] == 'alias':
+        l = g[1]
+        x, y, z = hw.wire('x'), hw.wire('y'), hw.wire('z')
+        W = Logic(hw, 'dut')
+        W.addIn('p0', x)
+        W.addIn('p1', y)
+        W.addOut('p2', z)
+        lw = W.wire(l)
+        ow = hw.wire(l)
+        py4hw.And2(W, 'g0', x, y, lw)
+        py4hw.Buf(W, 'g1', lw, ow)
+        py4hw.Reg(W, 'r0', ow, z)
+        return hw, ['w_x', 'w_y']
     _, xn, yn, zn = g
     x, y, z = hw.wire(xn), hw.wire(yn), hw.wire(zn)
     m = hw.wire('m')
@@ -73,6 +89,13 @@ twin_pairs = catalog.twin_pairs
 build_twin = catalog.build_twin
 
 
+def gen_programs(tier):
+    from mc import progen
+    progs = progen.programs(tier)
+    keep = [i for i, p in enumerate(progs) if i % 7 == 0 or p['family'] in progen.STRUCT]
+    return progs, keep
+
+
 def items(tier):
     out = [('cat', i) for i in range(len(c01._designs(tier)))]
     out += [('twin', i) for i in range(len(twin_pairs(tier)))]
@@ -81,7 +104,8 @@ def items(tier):
 
 
 def shards(tier):
-    counts = {'cat': len(c01._designs(tier)), 'twin': len(twin_pairs(tier)), 'name': len(naming_space(tier))}
+    counts = {'cat': len(c01._designs(tier)), 'twin': len(twin_pairs(tier)), 'name': len(naming_space(tier)),
+              'gen': len(gen_programs(tier)[1])}
     out = []
     for fam, n in counts.items():
         ch = CHUNK * (8 if fam == 'name' else 1)
@@ -152,6 +176,23 @@ def run_shard(d):
     res = {'evaluations': 0, 'distinct_nontrivial': 0, 'refused': 0, 'constructor_rejected': 0, 'outside_subset': 0,
            'violations': [], 'samples': [], '_outcomes': set(), 'modsigs': {}, 'modbodies': {}}
     tier, fam = d['tier'], d['family']
+    gm = None
+    if fam == 'gen':
+        from mc.props import c02
+        progs, keep = gen_programs(tier)
+        sel = keep[d['lo']:d['hi']]
+        gm = c02.GenModule([progs[i] for i in sel], 'c03_%d' % d['lo'])
+    try:
+        _run_items(d, res, tier, fam, gm)
+    finally:
+        if gm:
+            gm.close()
+    res['distinct_outcomes'] = len(res.pop('_outcomes'))
+    res['vacuous_ok'] = True
+    return res
+
+
+def _run_items(d, res, tier, fam, gm):
     for i in range(d['lo'], d['hi']):
         desc = {'family': fam, 'index': i, 'tier': tier}
         try:
@@ -171,6 +212,15 @@ def run_shard(d):
                 with core.quiet():
                     sys_, ins, outs = build_twin(a, b)
                 ext = ['w_' + w.name for _, w in ins]
+            elif fam == 'gen':
+                from mc.props import c02
+                progs, keep = gen_programs(tier)
+                p = progs[keep[i]]
+                label = 'gen:%s:%s' % (p['kind'], p['family'])
+                desc['design'] = p['body']
+                with core.quiet():
+                    sys_, ins, outs, dut = c02.build_gen(gm.cls(i - d['lo']), p)
+                ext = ['w_a', 'w_b']
             else:
                 g = naming_space(tier)[i]
                 label = 'naming:%s' % g[0]
@@ -189,9 +239,6 @@ def run_shard(d):
         check_text(text, ext, fam, label, res, desc)
         if len(res['samples']) < 1:
             res['samples'].append({'design': desc['design'], 'text_head': text[:300]})
-    res['distinct_outcomes'] = len(res.pop('_outcomes'))
-    res['vacuous_ok'] = True
-    return res
 
 
 def finish(cov, results, tier):
@@ -244,6 +291,13 @@ def replay(v):
         nm, a, b = twin_pairs(tier)[i]
         sys_, ins, outs = build_twin(a, b)
         ext = ['w_' + w.name for _, w in ins]
+    elif fam == 'gen':
+        from mc.props import c02
+        progs, keep = gen_programs(tier)
+        p = progs[keep[i]]
+        gm = c02.GenModule([p], 'c03replay')
+        sys_, ins, outs, dut = c02.build_gen(gm.cls(0), p)
+        ext = ['w_a', 'w_b']
     else:
         sys_, ext = build_naming(naming_space(tier)[i])
     text = c01.generate(sys_)
